@@ -65,7 +65,9 @@ CHECKS = {
              "dotted path, deprecated import key, unconfigured). The call log of the instrumented functions must equal, as a multiset, the non-null occurrences of the "
              "scalar in the response (parse) and in the caller's arguments (serialize); attributes must be parse(raw) of their own token and wire values serialize(value). "
              "Tokens include falsy-but-present values; a quarter of the cases rename one scalar to Upload so that the other scalars travel on the multipart route; the "
-             "traced OpenTelemetry client is driven where the rotation says so.",
+             "traced OpenTelemetry client is driven where the rotation says so. Every second case adds probe operations that pass every custom scalar as a required "
+             "variable and inside an input object on the HTTP and websocket routes; a fifth enables the operation builder. The two listed serialize findings are matched "
+             "against an exact model of their behaviour.",
         note=GEN_NOTE, design="4/C07"),
     "C08": dict(
         category="exploration",
@@ -99,7 +101,7 @@ CHECKS = {
              "six bundled client variants; every captured request is decoded and compared with an expectation the generator computed in parallel, and the "
              "variants are compared pairwise. 32 concurrent calls on one client are run under asyncio and thread schedules (with yield injection); each "
              "request must equal the one the same call sends in isolation and each response must reach its caller. Observed interleavings are counted. Call sequences "
-             "on one client share the caller's kwargs objects, retry with the same Upload from wherever the stream was left, and start from sniffed streams.",
+             "on one client share the caller's kwargs objects (some naming a Content-Type), retry with the same Upload from wherever the stream was left, and start from sniffed streams.",
         note="Trusted: httpx.MockTransport, requests_toolbelt multipart decoder. Schedules are sampled, not enumerated.",
         design="4/C11",
     ),
@@ -146,7 +148,8 @@ CHECKS = {
              "through the real `graphqlschema` strategy for all target formats and variable names; the produced schema must print identically and agree on every listed "
              "structural fact (kinds, interfaces, fields, args, defaults, descriptions, deprecations, enum values, union members, directive locations/repeatability, roots). "
              "A quarter of the cases edit the schema slightly and generate again onto the existing target (must equal a fresh generation); a seventh take the schema "
-             "through an in-process introspection endpoint (everything the tool's introspection query can carry must be reproduced).",
+             "through an in-process introspection endpoint (everything the tool's introspection query can carry must be reproduced; what it cannot carry is one listed finding). "
+             "The repository's own example schemas are fixed cases.",
         note="Trusted: graphql-core build_schema / print_schema as the reference reading of SDL.",
         design="4/C16"),
     "C17": dict(
@@ -155,8 +158,9 @@ CHECKS = {
         text="Every documented configuration constraint (2-4 concrete violations each), nine syntax-error placements (single files, directories, files invalid alone but valid when glued to a neighbour, empty files), one invalid schema per graphql-core validation branch and "
              "one or more invalid operations per specified validation rule (all confirmed invalid by graphql-core in the harness first) are run through the real CLI for both "
              "strategies with the target absent / empty / holding a previous generation / holding user files. The exception must be the corresponding CodeGenException naming "
-             "the item, and the audit hook must see no create/write/mkdir/remove under the target. Valid configurations (unknown keys, deprecated section, ...) must be accepted "
-             "and reading settings must not mutate the configuration.",
+             "the item, and the audit hook must see no create/write/mkdir/remove under the target. Valid configurations (unknown keys at every level, deprecated section, literal dollar "
+             "signs in headers, ...) must be accepted and reading settings must not mutate the configuration. The listed invalid-schema finding is matched against a "
+             "committed per-schema catalogue of the unchanged outcomes: any other outcome for the same schema is reported.",
         note="Trusted: audit hooks see every Python-level file-system mutation; graphql-core decides validity. The catalogue is finite and enumerated completely; it is not a proof over all invalid inputs.",
         design="4/C17"),
     "C18": dict(
@@ -167,7 +171,8 @@ CHECKS = {
              "letters and digits kept in order) for the four flag sets the generator uses. B: the contracts are re-bound into every generator module and evaluated during "
              "real generation from schemas using one dirty name class at a time; the package is loaded and driven so the wire name is observed. C: colliding pairs are "
              "placed in each scope kind: generation must fail or both names must stay usable; single names that meet a method local, keyword or attribute only after "
-             "the mapping are placed next to an unrelated partner in five scopes (enum values also as input defaults): wire name kept, value delivered.",
+             "the mapping are placed next to an unrelated partner in five scopes (enum values also as input defaults): wire name kept, value delivered. The listed pair "
+             "findings are keyed by scope and symptom.",
         note="Part A is exhaustive over the stated reduced alphabet and bound only; real names use a larger alphabet (case classes are represented by a/b/A/B).",
         design="4/C18"),
     "C19": dict(
